@@ -544,3 +544,20 @@ func ruleWriteFailsAfterCancel(c *Ctx, rule string, f *ssa.Function, name string
 	})
 	c.floor(rule, "send selects in "+name, n, 1)
 }
+
+// ruleFreshPeerQueue: every peer record gets its own, freshly made outgoing queue. Reusing a queue (e.g. of the record
+// being replaced on re-attach) gives it two write loops: envelopes for the newer connection go to the replaced one.
+func ruleFreshPeerQueue(c *Ctx, rule string) {
+	p := c.p
+	n := 0
+	for _, s := range p.FieldStores(fieldKey{"goat.proxyClient", "fromServer"}) {
+		n++
+		_, isMake := s.Val.(*ssa.MakeChan)
+		c.check(rule, p.cname(s.Parent())+":fresh-outgoing-queue", isMake, "a peer record's outgoing queue is made for that record ("+p.Origins().Of(s.Val).String()+")", p.ipos(s))
+	}
+	c.floor(rule, "peer record constructions", n, 2)
+	// and a record's connection is what its own loops read and write (no sharing of conn between records)
+	for _, s := range p.FieldStores(fieldKey{"goat.proxyClient", "toServer"}) {
+		c.check(rule, p.cname(s.Parent())+":reports-to-the-proxy-queue", p.locPathOfLoad(s.Val) == "goat.Proxy.commands", "every peer reports into the proxy's single command queue", p.ipos(s))
+	}
+}
